@@ -58,6 +58,7 @@ impl Prop for C04 {
         for (i, school) in [1u8, 2u8].iter().enumerate() {
             let mut spec = ParamSpec::plain(c.method);
             spec.school = Some(*school);
+            prime(&c.site, &spec, c.date, None, prime_selector(&c.site, c.date) + i as u64);
             let times = compute(&c.site, &spec, c.date, None);
             let Some(dh) = t(&times, Prayer::Dhuhr) else {
                 return Err(Failure::new("dhuhr-invalid", "Dhuhr reported", gen::fmt_times(&times)));
